@@ -862,17 +862,19 @@ def gen(rng, tier, n=None, focus=None):
         return [gen_foreign(rng, i, tier) for i in range(n)]
     if focus == "extremes":
         n = n or (16 if tier == "quick" else 120)
+        # (the list-based table model costs ~40 s for one 2048-slot case of the thorough tier: one of those, no 4096)
         plan = [8, 8, 16, 2048 if tier == "thorough" else 1024, "heavy", "heavy", "huge-config"]
         while len(plan) < n:
-            plan.append(rng.choice([8, 8, 8, 16, 16, 32, 64, "heavy", "huge-config"] + ([256, 4096] if tier == "thorough" else [])))
+            plan.append(rng.choice([8, 8, 8, 16, 16, 32, 64, "heavy", "huge-config"] + ([256, 1024] if tier == "thorough" else [])))
         return [gen_extremes(rng, i, tier, w) for i, w in enumerate(plan[:n])]
     if focus == "size":
         n = n or (10 if tier == "quick" else 60)
         top = 13 if tier == "quick" else 17
-        plan = [(8, top), (16, top), (64, top), (2048, top - 1 if tier == "quick" else 16), (1024, top - 1)]
+        # (big maps: every purge costs ~0.4 s in the list-based table model, so their streams stop at 2^13 / 2^14)
+        plan = [(8, top), (16, top), (64, top), (2048, 12 if tier == "quick" else 14), (1024, 12 if tier == "quick" else 14)]
         while len(plan) < n:
             size = rng.choice([8, 8, 16, 32, 128, 256, 512])
-            plan.append((size, rng.randint(8, top)))
+            plan.append((size, rng.randint(8, top if size < 128 else min(top, 14))))
         return [gen_size(rng, i, tier, s, l) for i, (s, l) in enumerate(plan[:n])]
     n = n or (70 if tier == "quick" else 500)
     cases = []
